@@ -39,6 +39,8 @@ double   vf_havoc(int64_t k);
 void     vf_havoc_is(int64_t k, double v);
 // 1 while executing symbolically (vf_d available), 0 in concrete runs (engine or native): use finite differences there
 bool     vf_symbolic();
+// native replays of float instantiations: tolerance of vf_eq / vf_angle_eq / vf_angle_congruent (symbolic runs: no effect, exact)
+void     vf_tol(double t);
 // like vf_eq with an explicit relative tolerance for the concrete runs
 bool     vf_near(double a, double b, double tol);
 // angles: equal as reals / congruent modulo 2 pi (engine: via sin/cos of the difference)
